@@ -55,3 +55,13 @@ fn f5_prio3_256_verifier_shares() {
     let many = vec![share; 256];
     assert!(vdaf.verifier_shares_to_message(b"ctx", &(), many).is_err());
 }
+use prio::vdaf::prio3::Prio3;
+use prio::vdaf::Client;
+#[test]
+fn f4_histogram_bucket_out_of_range() {
+    // C16: a measurement outside the configured range must be an error, not a panic
+    let vdaf = Prio3::new_histogram(2, 4, 2).unwrap();
+    assert!(vdaf.shard(b"ctx", &4usize, &[0; 16]).is_err());
+    assert!(vdaf.shard(b"ctx", &usize::MAX, &[0; 16]).is_err());
+    assert!(vdaf.shard(b"ctx", &3usize, &[0; 16]).is_ok());
+}
